@@ -155,16 +155,8 @@ void orc_c03_delivery(Delivery &d) {
             snprintf(sig, sizeof sig, "C03:event-wrong-key:%s", TN[e.type]);
             VIOL("C03", sig, "%s event handed to module slot %d does not carry the identifying value of its source", TN[e.type], d.slot);
         }
-        if (x->oneshot && !recent) {
+        if (x->oneshot && recent) {
             oracle_eval("C03.oneshot-once");
-            // fired: it is no longer registered
-            SrcM copy = *x;
-            copy.removed_gseq = R->gseq;
-            for (size_t i = 0; i < s.srcs.size(); i++) if (&s.srcs[i] == x) { s.srcs.erase(s.srcs.begin() + i); break; }
-            copy.k2 = -777;   // marker: fired
-            s.recent_srcs.push_back(copy);
-            s.oneshot_fired.push_back(copy.ud);
-        } else if (x->oneshot && recent) {
             if (std::count(s.oneshot_fired.begin(), s.oneshot_fired.end(), x->ud)) {
                 snprintf(sig, sizeof sig, "C03:oneshot-fired-twice:%s", TN[e.type]);
                 VIOL("C03", sig, "one-shot %s source of module slot %d fired a second time", TN[e.type], d.slot);
@@ -306,6 +298,7 @@ static int type_count(Slot &s, int type) {
 }
 void c09_check_counts(int slot, const char *after) {
     if (!on("C09")) return;
+    if (frame_on_stack("dereg", slot) || frame_on_stack_any("ctx_dereg")) return;   // being deregistered: its sets are going away
     Slot &s = W->slots[slot];
     m_mod_t *h = s.handle();
     if (!h || s.st == ST_ZOMBIE || s.st == ST_NONE) return;
@@ -332,9 +325,11 @@ void c09_register(int slot, int type, long k1, long k2, bool params_valid, int r
     char sig[96];
     oracle_eval("C09.register");
     if (s.st == ST_ZOMBIE || s.st == ST_NONE) return;
+    if (frame_on_stack("dereg", slot) || frame_on_stack_any("ctx_dereg")) return;
     if (!params_valid) {
         if (rc == 0) { snprintf(sig, sizeof sig, "C09:bad-params-accepted:%s", TN[type]); VIOL("C09", sig, "registration with invalid parameters returned 0"); }
-        if (snap0 != snapshot()) { snprintf(sig, sizeof sig, "C09:bad-params-left-trace:%s", TN[type]); VIOL("C09", sig, "a registration rejected for bad parameters changed the observable state"); }
+        std::string s1 = snapshot();
+        if (snap0 != s1) { snprintf(sig, sizeof sig, "C09:bad-params-left-trace:%s", TN[type]); VIOL("C09", sig, "a registration rejected for bad parameters changed the observable state: %s -> %s", snap0.c_str(), s1.c_str()); }
         return;
     }
     if (present) {
@@ -345,7 +340,13 @@ void c09_register(int slot, int type, long k1, long k2, bool params_valid, int r
             VIOL("C09", sig, "registering a %s source whose key is already present returned %d instead of -EEXIST", TN[type], rc);
         }
     } else {
-        if (rc != 0) { snprintf(sig, sizeof sig, "C09:new-key-refused:%s", TN[type]); VIOL("C09", sig, "registering a new %s key returned %d", TN[type], rc); }
+        if (rc != 0) {
+            bool other = false;
+            if (type == M_SRC_TYPE_FD && rc == -EEXIST)
+                for (auto &o : W->slots) if (o.idx != slot && o.ctx_gen == s.ctx_gen) for (auto &x : o.srcs) if (x.type == M_SRC_TYPE_FD && x.ufd == (int)k1) other = true;
+            snprintf(sig, sizeof sig, "C09:new-key-refused:%s%s", TN[type], other ? ":polled-for-another-module" : "");
+            VIOL("C09", sig, "registering a new %s key returned %d%s", TN[type], rc, other ? " (the descriptor is registered by another module of the same context)" : "");
+        }
         s.c09_model.insert(key);
     }
     c09_check_counts(slot, "register");
@@ -355,6 +356,7 @@ void c09_deregister(int slot, int type, long k1, long k2, int rc, const std::str
     Slot &s = W->slots[slot];
     static const char *TN[] = {"ps", "fd", "tmr", "sgn", "path", "pid", "task", "thresh"};
     if (s.st == ST_ZOMBIE || s.st == ST_NONE) return;
+    if (frame_on_stack("dereg", slot) || frame_on_stack_any("ctx_dereg")) return;
     auto key = std::make_tuple(type, k1, k2);
     bool present = s.c09_model.count(key) > 0;
     char sig[96];
@@ -367,7 +369,8 @@ void c09_deregister(int slot, int type, long k1, long k2, int rc, const std::str
         s.c09_model.erase(key);
     } else {
         if (rc >= 0) { snprintf(sig, sizeof sig, "C09:remove-absent-ok:%s", TN[type]); VIOL("C09", sig, "deregistering an absent %s key returned %d", TN[type], rc); }
-        if (snap0 != snapshot()) { snprintf(sig, sizeof sig, "C09:remove-absent-had-effect:%s", TN[type]); VIOL("C09", sig, "deregistering an absent %s key changed the observable state", TN[type]); }
+        std::string s1 = snapshot();
+        if (snap0 != s1) { snprintf(sig, sizeof sig, "C09:remove-absent-had-effect:%s", TN[type]); VIOL("C09", sig, "deregistering an absent %s key changed the observable state: %s -> %s", TN[type], snap0.c_str(), s1.c_str()); }
     }
     c09_check_counts(slot, "deregister");
 }
